@@ -262,6 +262,14 @@ def run(ctx):
 
 
 def null_terminated(ctx, fi, paths, rule="C08.R2"):
+    # a unit that is not the terminator is appended, unchanged, at the end of the region data before the next unit is read
+    steps = [(evs, env_) for p in paths[:1] for lid, evs, env_ in p.loop_steps]
+    okstep = bool(steps)
+    for evs, env_ in steps:
+        rd = [e for e in evs if e.kind == "READ"]
+        grown = [v for k, v in env_.items() if isinstance(v, tuple) and v and v[0] in ("concat", "uconcat") and v[1][0] == "lv"]
+        okstep = okstep and len(rd) == 1 and any(v[2] == rd[0]["res"] and v[1][3] == N.const(b"") for v in grown)
+    ctx.ob(rule, fi, okstep, "NullTerminated collects every non-terminator unit, in order, into region data that starts empty", key="NT accumulate")
     term = N.selfattr("term")
     unit = ("call", ("free", "len"), (term,), ())
     inc, con, req = N.selfattr("include"), N.selfattr("consume"), N.selfattr("require")
